@@ -57,60 +57,86 @@ def isWordByte (b : UInt8) : Bool :=
 
 def isDigit (b : UInt8) : Bool := 48 ≤ b && b ≤ 57
 
-def takeWhileB (p : UInt8 → Bool) : Str → Str × Str
-  | [] => ([], [])
-  | b :: rest => if p b then let (a, r) := takeWhileB p rest; (b :: a, r) else ([], b :: rest)
-
 def digitsVal (ds : Str) : Nat := ds.foldl (fun acc d => acc * 10 + (d.toNat - 48)) 0
 
-def skipLine : Str → Str
-  | [] => []
-  | b :: rest => if b = 10 then rest else skipLine rest
+/-- lexer states; accumulators are reversed -/
+inductive LSt
+  | top
+  | qid (acc : Str)        -- inside a quoted identifier
+  | qidQ (acc : Str)       -- inside a quoted identifier, just saw the quote character
+  | str (acc : Str)        -- inside a single-quoted string
+  | strQ (acc : Str)
+  | word (acc : Str)
+  | dollar (acc : Str)     -- `$` followed by digits
+  | dash                   -- saw one `-`
+  | slash                  -- saw one `/`
+  | line                   -- inside `-- …`
+  | block                  -- inside `/* …`
+  | blockStar              -- inside a block comment, just saw `*`
+  deriving DecidableEq, Repr
 
-def skipBlock : Str → Option Str
-  | [] => none
-  | [_] => none
-  | a :: b :: rest => if a = 42 ∧ b = 47 then some rest else skipBlock (b :: rest)
+/-- the transition out of the top state on byte `b` -/
+def topStep (d : Dialect) (b : UInt8) : LSt × List Tok :=
+  if b = 32 ∨ b = 9 ∨ b = 10 ∨ b = 13 then (.top, [])
+  else if b = d.q then (.qid [], [])
+  else if b = 39 then (.str [], [])
+  else if b = 45 then (.dash, [])
+  else if b = 47 then (.slash, [])
+  else if b = 63 then (.top, [.ph 0])
+  else if b = 36 then (.dollar [], [])
+  else if isWordByte b then (.word [b], [])
+  else (.top, [.punct b])
 
-/-- single-quoted string: `''` is an escaped quote -/
-def lexString : Str → Option (Str × Str)
-  | [] => none
-  | b :: rest =>
-    if b = 39 then
-      match rest with
-      | c :: rest' => if c = 39 then (lexString rest').map (fun (v, r) => (39 :: v, r)) else some ([], c :: rest')
-      | [] => some ([], [])
-    else (lexString rest).map (fun (v, r) => (b :: v, r))
+/-- one byte: new state and the tokens completed by it -/
+def step (d : Dialect) : LSt → UInt8 → LSt × List Tok
+  | .top, b => topStep d b
+  | .qid acc, b => if b = d.q then (.qidQ acc, []) else (.qid (b :: acc), [])
+  | .qidQ acc, b =>
+    if b = d.q then (.qid (b :: acc), [])                    -- doubled quote: an escaped quote character
+    else let (st, ts) := topStep d b; (st, .qident acc.reverse :: ts)
+  | .str acc, b => if b = 39 then (.strQ acc, []) else (.str (b :: acc), [])
+  | .strQ acc, b =>
+    if b = 39 then (.str (b :: acc), [])
+    else let (st, ts) := topStep d b; (st, .strlit acc.reverse :: ts)
+  | .word acc, b =>
+    if isWordByte b then (.word (b :: acc), [])
+    else let (st, ts) := topStep d b; (st, .word acc.reverse :: ts)
+  | .dollar acc, b =>
+    if isDigit b then (.dollar (b :: acc), [])
+    else
+      let (st, ts) := topStep d b
+      (st, (if acc.isEmpty then Tok.punct 36 else .ph (digitsVal acc.reverse)) :: ts)
+  | .dash, b =>
+    if b = 45 then (.line, [])
+    else let (st, ts) := topStep d b; (st, .punct 45 :: ts)
+  | .slash, b =>
+    if b = 42 then (.block, [])
+    else let (st, ts) := topStep d b; (st, .punct 47 :: ts)
+  | .line, b => if b = 10 then (.top, []) else (.line, [])
+  | .block, b => if b = 42 then (.blockStar, []) else (.block, [])
+  | .blockStar, b => if b = 47 then (.top, []) else if b = 42 then (.blockStar, []) else (.block, [])
 
-/-- the lexer; `fuel` bounds the number of tokens (the input length suffices) -/
-def lexAux (d : Dialect) : Nat → Str → List Tok
-  | 0, _ => []
-  | _, [] => []
-  | fuel + 1, b :: rest =>
-    if b = 32 ∨ b = 9 ∨ b = 10 ∨ b = 13 then lexAux d fuel rest
-    else if b = d.q then
-      match lexQuotedBody d.q rest with
-      | some (v, r) => .qident v :: lexAux d fuel r
-      | none => [.bad]
-    else if b = 39 then
-      match lexString rest with
-      | some (v, r) => .strlit v :: lexAux d fuel r
-      | none => [.bad]
-    else if b = 45 ∧ rest.head? = some 45 then lexAux d fuel (skipLine rest)
-    else if b = 47 ∧ rest.head? = some 42 then
-      match skipBlock (rest.drop 1) with
-      | some r => lexAux d fuel r
-      | none => [.bad]
-    else if b = 63 then .ph 0 :: lexAux d fuel rest
-    else if b = 36 ∧ (rest.head?.map isDigit).getD false then
-      let (ds, r) := takeWhileB isDigit rest
-      .ph (digitsVal ds) :: lexAux d fuel r
-    else if isWordByte b then
-      let (w, r) := takeWhileB isWordByte rest
-      .word (b :: w) :: lexAux d fuel r
-    else .punct b :: lexAux d fuel rest
+/-- tokens completed by the end of input -/
+def finish : LSt → List Tok
+  | .top => []
+  | .qid _ => [.bad]
+  | .qidQ acc => [.qident acc.reverse]
+  | .str _ => [.bad]
+  | .strQ acc => [.strlit acc.reverse]
+  | .word acc => [.word acc.reverse]
+  | .dollar acc => [if acc.isEmpty then .punct 36 else .ph (digitsVal acc.reverse)]
+  | .dash => [.punct 45]
+  | .slash => [.punct 47]
+  | .line => []
+  | .block => [.bad]
+  | .blockStar => [.bad]
 
-def lex (d : Dialect) (s : Str) : List Tok := lexAux d (s.length + 1) s
+def run (d : Dialect) : LSt → Str → List Tok
+  | st, [] => finish st
+  | st, b :: rest => let (st', ts) := step d st b; ts ++ run d st' rest
+
+/-- the lexer -/
+def lex (d : Dialect) (s : Str) : List Tok := run d .top s
 
 /-! ### statements -/
 
